@@ -172,6 +172,15 @@ class Similarity(Affine):
                 "Only 2D and 3D Similarity transforms " "are currently supported."
             )
 
+    @property
+    def composes_inplace_with(self):
+        r"""
+        :class:`Similarity` can swallow composition with any other
+        :class:`Similarity` (the product of two similarities is a similarity;
+        the product with a general :class:`Affine` is not).
+        """
+        return Similarity
+
 
 class AlignmentSimilarity(HomogFamilyAlignment, Similarity):
     """
